@@ -42,7 +42,7 @@ func sym(n string) MalType       { return Symbol{Val: n} }
 func lst(xs ...MalType) MalType  { return List{Val: xs} }
 func vect(xs ...MalType) MalType { return Vector{Val: xs} }
 
-var wrapperNames = []string{"then-branch", "else-branch", "last-of-do", "let-body", "cond-clause", "and-last", "or-last", "let-body-multi", "if-without-else"}
+var wrapperNames = []string{"then-branch", "else-branch", "last-of-do", "let-body", "cond-clause", "and-last", "or-last", "let-body-multi", "if-without-else", "let-empty-vector", "let-empty-list", "do-single"}
 
 func wrap(k int, inner MalType) MalType {
 	switch k {
@@ -62,8 +62,14 @@ func wrap(k int, inner MalType) MalType {
 		return lst(sym("or"), false, inner)
 	case 7:
 		return lst(sym("let"), vect(sym("z"), 1), 2, inner)
-	default:
+	case 8:
 		return lst(sym("if"), true, inner)
+	case 9:
+		return lst(sym("let"), vect(), inner)
+	case 10:
+		return lst(sym("let"), lst(), 1, inner)
+	default:
+		return lst(sym("do"), inner)
 	}
 }
 
